@@ -73,6 +73,13 @@ m("api-dispatch-watch-by-path", API, """            for handler in self._handler
                 for handler in self._handlers[w].copy():
                     if handler in self._handlers[w]:
                         handler.dispatch(event)""", ["C04"])
+IB = "src/watchdog/observers/inotify_buffer.py"
+m("ib-no-delay-for-from", IB, "delay = not isinstance(inotify_event, tuple) and inotify_event.is_moved_from", "delay = False", ["C08"])
+m("ib-pair-ignores-cookie", IB, "return not isinstance(event, tuple) and event.is_moved_from and event.cookie == inotify_event.cookie", "return not isinstance(event, tuple) and event.is_moved_from", ["C08"])
+m("ib-ignored-not-skipped", IB, """                        deleted_self = True
+                    continue
+""", """                        deleted_self = True
+""", ["C08"])
 
 
 def main():
